@@ -362,7 +362,7 @@ def install_default_models(e):
     e.axioms.append(z3.And(sin(z3.RealVal(0)) == 0, cos(z3.RealVal(0)) == 1))
     e.opaque_handlers.update({"lock": h_lock, "rlock": h_lock, "logger": h_logger, "event": h_event,
                               "link_layer": h_link_layer, "callback": h_callback, "timer": h_timer,
-                              "thread": h_thread, "cbf_buffer": make_keyed_map_handler(_fresh_timer),
+                              "thread": h_thread, "cbf_buffer": make_keyed_map_handler(_fresh_timer, initial=_timer_map_initial),
                               "loc_t": make_keyed_map_handler(_fresh_any), "time_fn": h_time_fn, "any_list": h_any_list, "datetime": h_datetime,
                               "nearby_map": make_keyed_map_handler(_fresh_any), "keyed_keys": h_keyed_keys, "struct_obj": h_struct_obj})
     e.external_handlers.update({
@@ -454,6 +454,8 @@ def flatten_terms(e, v):
         return [e.str_id(v.s)]
     if isinstance(v, Opaque) and v.ident is not None:
         return [v.ident]
+    if isinstance(v, BytesV) and e.bytes_const_len(v) is not None:
+        return [e.bytes_as_bv(v)] if e.bytes_const_len(v) > 0 else []
     raise Unsupported(f"value of kind {type(v).__name__} as a symbolic map key")
 
 
@@ -630,6 +632,17 @@ def _fresh_any(e, st):
 
 def _fresh_timer(e, st):
     return st, Opaque("timer", _ident(e, "timer", "old_timer"), {"delay": None, "fn": None, "args": []})
+
+
+def _timer_map_initial(e, st, o, key):
+    """content of a map key -> pending Timer at a key the path did not touch: presence and timer identity are fixed
+    uninterpreted functions of the key's value (per map and havoc epoch)"""
+    flat = flatten_terms(e, key)
+    tag = f"{o.ident}@{_map_epoch(st, o)}"
+    sort = z3.DeclareSort("Obj_timer")
+    has = z3.Function(f"timers.has0[{tag}]", *[t.sort() for t in flat], z3.BoolSort())
+    val = z3.Function(f"timers.timer0[{tag}]", *[t.sort() for t in flat], sort)
+    return has(*flat), Opaque("timer", val(*flat), {"delay": None, "fn": None, "args": []})
 
 
 def keyed_map_filter(e, st, o, keep):
